@@ -92,9 +92,13 @@ def _builtin_chunk(items):
     n = 0
     for syntax, key, definition in items:
         for a, d in _forms(key, definition):
-            for fmt in (False, True):
+            # definitions that read variables are also compared under a call that sets one variable (the others come from other layers)
+            for fmt, variables in ((False, None), (True, None)) + (((False, {'lang': 'de'}),) if '${' in definition else ()):
                 cfg = {'syntax': syntax, 'options': {'output.format': fmt}}
-                case = {'syntax': syntax, 'key': key, 'definition': definition, 'alias_form': a, 'definition_form': d, 'format': fmt}
+                if variables:
+                    cfg['variables'] = dict(variables)
+                case = {'syntax': syntax, 'key': key, 'definition': definition, 'alias_form': a, 'definition_form': d, 'format': fmt,
+                        'variables': variables}
                 try:
                     with common.Alarm(10):
                         ra = emmet.expand(a, dict(cfg))
@@ -169,4 +173,6 @@ def replay(case):
         return 'expand(%r, snippets=%r) -> %r\nexpected %r' % (c['abbr'], c['snippets'],
                                                               emmet.expand(c['abbr'], {'snippets': c['snippets'], 'options': {'output.format': False, 'output.reverseAttributes': bool(c.get('reverseAttributes'))}}), c.get('expected'))
     cfg = {'syntax': c['syntax'], 'options': {'output.format': c['format']}}
+    if c.get('variables'):
+        cfg['variables'] = dict(c['variables'])
     return 'alias %r -> %r\ndefinition %r -> %r' % (c['alias_form'], emmet.expand(c['alias_form'], dict(cfg)), c['definition_form'], emmet.expand(c['definition_form'], dict(cfg)))
